@@ -192,6 +192,8 @@ def masked_invalid(a, copy=True):
 
 def make_numpy_shim():
     over = {
+        'isscalar': lambda x: True if isinstance(x, (Sym, SymNaN))
+        else _np.isscalar(x),
         'interp': interp,
         'isnan': lambda a, **k: _boolmap(_isnan1, a) if _needs(a)
         else _np.isnan(a, **k),
